@@ -430,6 +430,18 @@ static void convert_pp_number(Token *tok) {
     return;
 
   // If it's not an integer, it must be a floating point constant.
+  // A token that starts like an octal constant ("08", "0779u") and
+  // has neither a period nor an exponent is not a floating constant
+  // either, although strtold() would read it as one.
+  if (tok->loc[0] == '0' && isdigit(tok->loc[1])) {
+    bool is_flonum = false;
+    for (int i = 0; i < tok->len; i++)
+      if (strchr(".eE", tok->loc[i]))
+        is_flonum = true;
+    if (!is_flonum)
+      error_tok(tok, "invalid digit in octal constant");
+  }
+
   char *end;
   long double val = strtold(tok->loc, &end);
 
